@@ -74,6 +74,16 @@ let fnv32 (s : string) : int =
   let h = ref 0x811c9dc5 in
   String.iter (fun c -> h := ((!h lxor Char.code c) * 16777619) land m32) s; !h
 
+(* the text of a node is rebuilt only when its data changed (a node keeps its id; replace swaps the data) *)
+let ent_cache : (int, n list * string) Hashtbl.t = Hashtbl.create 4096
+let ent_str (e : hent) : string =
+  let id = int_of_pos e.eid in
+  match Hashtbl.find_opt ent_cache id with
+  | Some (d, s) when d == e.edata -> s
+  | _ ->
+    let s = Printf.sprintf "%d/%08x/%s=%s" id (int_of_n e.ehash) (hex_of_bytes e.ename) (hex_of_bytes e.edata) in
+    Hashtbl.replace ent_cache id (e.edata, s); s
+
 let dump_slots (s : htbl) : string =
   let b = Buffer.create 256 in
   List.iteri (fun i ch ->
@@ -82,7 +92,7 @@ let dump_slots (s : htbl) : string =
       Buffer.add_string b (string_of_int i); Buffer.add_char b ':';
       List.iteri (fun j e ->
         if j > 0 then Buffer.add_char b ',';
-        Buffer.add_string b (Printf.sprintf "%d/%08x/%s=%s" (int_of_pos e.eid) (int_of_n e.ehash) (hex_of_bytes e.ename) (hex_of_bytes e.edata))) ch
+        Buffer.add_string b (ent_str e)) ch
     end) s.hslots;
   Buffer.contents b
 
@@ -95,7 +105,7 @@ let run () =
   iter_lines (fun line ->
     let ws = words line in
     match ws with
-    | ["new"; r] -> st := hinit (n_of_int (int_of_string r)); sp := []; dead := false; sdead := false
+    | ["new"; r] -> Hashtbl.reset ent_cache; st := hinit (n_of_int (int_of_string r)); sp := []; dead := false; sdead := false
     | ["dump"; d] -> dump := (d = "1")
     | ["hash"; k] -> let h = int_of_n (hash_model (bytes_of_hex k)) in
                      Printf.printf "M hash %d\nS hash %d\n" h h
